@@ -271,11 +271,8 @@ def check(run):
                     continue
                 k = max(j for j in lst["pieces"] if j >= 0)
                 st2 = cs.clone()
-                lst2 = None
-                for oid, o in st2.heap.items():
-                    if o is not lst and o.get("split_of") == lst["split_of"] and o.get("pieces") and set(o["pieces"]) == set(lst["pieces"]):
-                        lst2 = o
-                lst2 = lst2 or lst
+                lst_oid = next(oid for oid, o in cs.heap.items() if o is lst)
+                lst2 = st2.mut(lst_oid)
                 exp = Lin(k)
                 for j in range(k):
                     exp = exp + interp.split_piece(lst2, j, st2).length
